@@ -50,7 +50,7 @@ func (c *Conn) writeStatus(data *imap.StatusData, options *imap.StatusOptions, r
 
 	enc.Atom("*").SP().Atom("STATUS").SP().Mailbox(data.Mailbox).SP()
 	listEnc := enc.BeginList()
-	if options.NumMessages {
+	if options.NumMessages && data.NumMessages != nil {
 		listEnc.Item().Atom("MESSAGES").SP().Number(*data.NumMessages)
 	}
 	if options.UIDNext {
@@ -59,13 +59,13 @@ func (c *Conn) writeStatus(data *imap.StatusData, options *imap.StatusOptions, r
 	if options.UIDValidity {
 		listEnc.Item().Atom("UIDVALIDITY").SP().Number(data.UIDValidity)
 	}
-	if options.NumUnseen {
+	if options.NumUnseen && data.NumUnseen != nil {
 		listEnc.Item().Atom("UNSEEN").SP().Number(*data.NumUnseen)
 	}
-	if options.NumDeleted {
+	if options.NumDeleted && data.NumDeleted != nil {
 		listEnc.Item().Atom("DELETED").SP().Number(*data.NumDeleted)
 	}
-	if options.Size {
+	if options.Size && data.Size != nil {
 		listEnc.Item().Atom("SIZE").SP().Number64(*data.Size)
 	}
 	if options.AppendLimit {
@@ -76,7 +76,7 @@ func (c *Conn) writeStatus(data *imap.StatusData, options *imap.StatusOptions, r
 			enc.NIL()
 		}
 	}
-	if options.DeletedStorage {
+	if options.DeletedStorage && data.DeletedStorage != nil {
 		listEnc.Item().Atom("DELETED-STORAGE").SP().Number64(*data.DeletedStorage)
 	}
 	if recent {
